@@ -276,6 +276,38 @@ func removeIncludedTaxes(doc billable) error {
 	return nil
 }
 
+// dropOwnCountryFromTaxes removes the country of tax combos that name the
+// document's own regime country: it is no override, the calculation drops it as
+// well, and normalizers must not see it on a first pass only.
+func dropOwnCountryFromTaxes(doc billable) {
+	country := doc.RegimeDef().GetCountry()
+	if country == "" {
+		return
+	}
+	drop := func(ts tax.Set) {
+		for _, t := range ts {
+			if t != nil && t.Country == country {
+				t.Country = ""
+			}
+		}
+	}
+	for _, l := range doc.getLines() {
+		if l != nil {
+			drop(l.Taxes)
+		}
+	}
+	for _, d := range doc.getDiscounts() {
+		if d != nil {
+			drop(d.Taxes)
+		}
+	}
+	for _, c := range doc.getCharges() {
+		if c != nil {
+			drop(c.Taxes)
+		}
+	}
+}
+
 func applyCustomerRates(doc billable) {
 	if doc.getCustomer() == nil || doc.getCustomer().TaxID == nil {
 		return
